@@ -32,7 +32,8 @@ def route(m, r, tmp):
 
 
 def probe(m, x):
-  y = m.predict(x, verbose=0)
+  # an eager call: the same function as predict() without tracing a graph for every rebuilt model
+  y = np.asarray(m(tf.constant(x), training=False))
   y = np.where(np.isfinite(y), y, np.float32(12345.0))
   return [dy(v) for v in np.asarray(y, dtype=np.float32).reshape(-1)], qmodels.quantizer_configs(m)
 
